@@ -108,8 +108,8 @@ def check_graph(pid, tier, seed, runs):
                      "independent chunk composition per input, dask config knobs, schedule policy and fault plan. "
                      "Non-trivial = at least one input has >1 chunk on some axis AND the run had >=1 scheduling "
                      "choice AND (the policy is not dfs OR a fault fired). Distinct = distinct (case digest, full "
-                     "schedule digest, fired-fault list) triples; workers own disjoint functions so per-worker "
-                     "counts add exactly."),
+                     "schedule digest, fired-fault list) triples; every case belongs to exactly one worker (sharded by "
+                     "op/dtype/reducer or by run index) so per-worker counts add exactly."),
             "samples": samples,
             "simulated_steps": int(counts.get("steps", 0)),
             "simulated_time_note": "there is no clock in the system; steps (task completions) are the only time",
